@@ -21,7 +21,7 @@ def run(S):
     found = comments.explore_block(S, M, (0,), want=('C06',))
     found += comments.explore_line(S, M)
     comments.report(S, 'C06', found)
-    KL = 2 if S.tier == 'quick' else 4
+    KL = 3 if S.tier == 'quick' else 4
     KF = 3 if S.tier == 'quick' else 5
     f2 = flows.explore_flow(S, KF, want=('C06',))
     f2 += lists.explore(S, KL, want=('C06',))
